@@ -1,20 +1,27 @@
 """pyxel/util/image.py + pyxel/inputs/loader.py -> Gen_C20.v
 
-Extracted (fail closed on any other shape):
+Extracted (fail closed on any other shape).  The reading is by NORMALISATION, not by statement shape: private helper
+functions of the same module are inlined, single-assignment local aliases and names bound once at module level are
+substituted, tests are decided (if/elif == guard clauses with early returns == match == dispatch dict == conditional
+expression), docstrings / annotations / logging / late imports / message texts are never read.
   * class Alignment(Enum): value string -> member                      -> src_align_names
-  * _set_relative_position: one `alignment == Alignment.<m>` branch per member, each returning a pair
-    of integer expressions over array_x/array_y/output_x/output_y        -> src_align
+  * _set_relative_position: for EACH member the body is partially evaluated with `alignment` = that member (_AlignEval);
+    the pair of integer expressions over array_x/array_y/output_x/output_y that is returned   -> src_align
+    (parameters may be renamed: their roles are then read from the one call in fit_into_array)
   * load_cropped_and_aligned_image: is it decorated with lru_cache, its maxsize, its parameter list
     (= the memoisation key)                                             -> src_memoised, src_memo_maxsize, src_memo_key
-  * load_image: the tuple of separators tried for .txt/.data, in order  -> src_delims
+  * load_image: the separators tried for .txt/.data, in order = what the one loop around
+    np.loadtxt(delimiter=<loop variable>) iterates over — in load_image or in a private helper it calls; the list may be
+    written in place, bound once locally / at module level, or handed to the helper as an argument  -> src_delims
+    (how the loop stops and how failure is reported is behaviour: judged by the correspondence, not read)
   * what could keep loaded content between two calls, in pyxel/inputs/loader.py, pyxel/util/image.py and the two
     loading models: caching decorators on any function, module-level containers that a function mutates
     (subscript store / del, mutating method call, `global`), mutable default arguments, attributes stored on
     functions                                                            -> src_loader_state (names; [] = none)
-  * the call sites of the two loading models (photon_collection.load_image, charge_generation.load_charge): what
-    each passes to load_cropped_and_aligned_image as shape / filename / position_x / position_y / align /
-    allow_smaller_array (names followed through single assignments and the tuple unpacking of `position`), the
-    scaling factor as exponents of (detector.time_step, time_scale, multiplier), and whether the scaled array is
+  * the call sites of the two loading models (photon_collection.load_image, charge_generation.load_charge): an abstract
+    evaluation (_ModelEval) of the body with the optional features at their defaults: what reaches
+    load_cropped_and_aligned_image as shape / filename / position_x / position_y / align / allow_smaller_array, the
+    scaling factor as exponents of (detector.time_step, time_scale, multiplier), and that the scaled array is
     added to the bucket                                                  -> src_photon_call, src_charge_call
 """
 from __future__ import annotations
@@ -89,72 +96,362 @@ def _enum(tree) -> list[tuple[str, str]]:
     return out
 
 
-def _align(tree) -> dict[str, tuple[str, str]]:
+# ------------------------------------------------------------------------------ general normalisations
+LOG_HEADS = {"logging", "logger", "log", "_logger", "_log", "LOGGER", "LOG", "warnings", "print"}
+
+
+def _module_funcs(tree) -> dict:
+    return {n.name: n for n in tree.body if isinstance(n, ast.FunctionDef)}
+
+
+def _stores(scope, name) -> int:
+    """How often `name` is bound inside `scope` (assignment targets, loop / with / except / walrus targets, global)."""
+    k = 0
+    for n in ast.walk(scope):
+        if isinstance(n, ast.Name) and n.id == name and isinstance(n.ctx, (ast.Store, ast.Del)):
+            k += 1
+        elif isinstance(n, (ast.Global, ast.Nonlocal)) and name in n.names:
+            k += 2
+        elif isinstance(n, ast.ExceptHandler) and n.name == name:
+            k += 1
+        elif isinstance(n, (ast.Import, ast.ImportFrom)) and any((al.asname or al.name.split(".")[0]) == name for al in n.names):
+            k += 1
+        elif isinstance(n, (ast.FunctionDef, ast.AsyncFunctionDef, ast.ClassDef)) and n is not scope and n.name == name:
+            k += 1
+    return k
+
+
+def module_const(tree, name):
+    """The value of a name bound exactly once in the whole module, at module level (a constant moved out of a
+    function); None if there is no such binding."""
+    binds = [st for st in tree.body
+             if (isinstance(st, ast.Assign) and len(st.targets) == 1 and isinstance(st.targets[0], ast.Name)
+                 and st.targets[0].id == name)
+             or (isinstance(st, ast.AnnAssign) and isinstance(st.target, ast.Name) and st.target.id == name
+                 and st.value is not None)]
+    if len(binds) != 1 or _stores(tree, name) != 1:
+        return None
+    return binds[0].value
+
+
+def _params(fn) -> list[str]:
+    if fn.args.vararg or fn.args.kwarg:
+        fail(fn, "*args / **kwargs not accepted")
+    return [a.arg for a in fn.args.posonlyargs + fn.args.args + fn.args.kwonlyargs]
+
+
+def _defaults(fn) -> dict:
+    pos = fn.args.posonlyargs + fn.args.args
+    out = dict(zip([a.arg for a in pos[len(pos) - len(fn.args.defaults):]], fn.args.defaults))
+    out.update({a.arg: d for a, d in zip(fn.args.kwonlyargs, fn.args.kw_defaults) if d is not None})
+    return out
+
+
+def bind_call(fn, call: ast.Call) -> dict:
+    """parameter name -> argument node of `call` (defaults filled in); fails closed on * / ** arguments."""
+    names = [a.arg for a in fn.args.posonlyargs + fn.args.args]
+    _params(fn)
+    if any(isinstance(a, ast.Starred) for a in call.args) or any(k.arg is None for k in call.keywords) \
+            or len(call.args) > len(names):
+        fail(call, "call shape not accepted")
+    out = dict(zip(names, call.args))
+    for k in call.keywords:
+        if k.arg in out or k.arg not in names + [a.arg for a in fn.args.kwonlyargs]:
+            fail(call, "keyword not accepted")
+        out[k.arg] = k.value
+    for p, d in _defaults(fn).items():
+        out.setdefault(p, d)
+    if sorted(out) != sorted(_params(fn)):
+        fail(call, "missing argument")
+    return out
+
+
+class _Subst(ast.NodeTransformer):
+    def __init__(self, env):
+        self.env = env
+
+    def visit_Name(self, node):
+        if isinstance(node.ctx, ast.Load) and node.id in self.env:
+            return self.env[node.id]
+        return node
+
+
+def subst(node, env):
+    import copy
+    return _Subst(env).visit(copy.deepcopy(node)) if env else node
+
+
+def _is_doc_or_noise(st) -> bool:
+    """Statements without effect on what is extracted: docstrings / bare constants, pass, late imports, logging /
+    warnings / print calls."""
+    if isinstance(st, (ast.Pass, ast.Import, ast.ImportFrom)):
+        return True
+    if isinstance(st, ast.Expr):
+        if isinstance(st.value, ast.Constant):
+            return True
+        if isinstance(st.value, ast.Call):
+            head = _attr_chain(st.value.func)
+            if head is not None and head.split(".")[0] in LOG_HEADS:
+                return True
+    return False
+
+
+# ------------------------------------------------------------------------------ _set_relative_position
+class _AlignEval:
+    """Partial evaluation of `_set_relative_position` (and the private helpers it calls) for ONE known member of
+    Alignment: which pair of integer expressions is returned.  Accepts any mix of if/elif chains, guard clauses with
+    early returns, inverted tests, `match`, `in (..)` tests, conditional expressions, dispatch dicts built in the
+    function or bound once at module level, local aliases, and calls of private helper functions of the module
+    (inlined).  Every test must be decidable from the member alone; anything else fails closed."""
+
+    def __init__(self, tree, enum_values: dict, member: str, depth=0):
+        self.tree, self.values, self.member = tree, enum_values, member
+        self.funcs = _module_funcs(tree)
+        self.depth = depth
+
+    # -- values that a test may compare: ('m', member) / ('s', string)
+    def aval(self, node):
+        if isinstance(node, ast.Constant) and isinstance(node.value, str):
+            return ("s", node.value)
+        if isinstance(node, ast.Attribute) and isinstance(node.value, ast.Name) and node.value.id == "Alignment" \
+                and node.attr in MEMBERS:
+            return ("m", node.attr)
+        if isinstance(node, ast.Name) and node.id == "\0member":
+            return ("m", self.member)
+        if isinstance(node, ast.Attribute) and node.attr in ("value", "name"):
+            b = self.aval(node.value)
+            if b and b[0] == "m":
+                return ("s", self.values[b[1]] if node.attr == "value" else b[1])
+        if isinstance(node, ast.Call) and isinstance(node.func, ast.Name) and node.func.id == "Alignment" \
+                and len(node.args) == 1 and not node.keywords:
+            b = self.aval(node.args[0])
+            if b and b[0] == "m":
+                return b
+            if b and b[0] == "s":
+                hit = [m for m, v in self.values.items() if v == b[1]]
+                if len(hit) == 1:
+                    return ("m", hit[0])
+        return None
+
+    def cond(self, node):
+        if isinstance(node, ast.Constant) and isinstance(node.value, bool):
+            return node.value
+        if isinstance(node, ast.UnaryOp) and isinstance(node.op, ast.Not):
+            return not self.cond(node.operand)
+        if isinstance(node, ast.BoolOp):
+            vals = [self.cond(v) for v in node.values]
+            return all(vals) if isinstance(node.op, ast.And) else any(vals)
+        if isinstance(node, ast.Compare):
+            left, res = node.left, True
+            for op, right in zip(node.ops, node.comparators):
+                a = self.aval(left)
+                if a is None:
+                    fail(node, "test is not decided by the alignment member alone")
+                if isinstance(op, (ast.In, ast.NotIn)):
+                    if not isinstance(right, (ast.Tuple, ast.List, ast.Set)):
+                        fail(node, "membership test shape")
+                    bs = [self.aval(e) for e in right.elts]
+                    if any(b is None for b in bs):
+                        fail(node, "membership test shape")
+                    r = a in bs
+                    r = r if isinstance(op, ast.In) else not r
+                else:
+                    b = self.aval(right)
+                    if b is None or b[0] != a[0] or not isinstance(op, (ast.Eq, ast.Is, ast.NotEq, ast.IsNot)):
+                        fail(node, "test is not decided by the alignment member alone")
+                    r = (a == b) if isinstance(op, (ast.Eq, ast.Is)) else (a != b)
+                res, left = res and r, right
+            return res
+        fail(node, "test is not decided by the alignment member alone")
+
+    # -- expressions: reduce dispatch dicts, conditional expressions, helper calls; the rest is left to expr()
+    def reduce(self, node):
+        if isinstance(node, ast.IfExp):
+            return self.reduce(node.body if self.cond(node.test) else node.orelse)
+        if isinstance(node, ast.Name) and isinstance(node.ctx, ast.Load) and node.id not in VARS and node.id != "\0member":
+            v = module_const(self.tree, node.id)
+            if v is not None:
+                return self.reduce(v)
+        if isinstance(node, ast.Subscript) and isinstance(self.reduce(node.value), ast.Dict):
+            d, key = self.reduce(node.value), self.aval(node.slice)
+            if key is None or any(k is None or self.aval(k) is None for k in d.keys):
+                fail(node, "dispatch dict shape")
+            for v in d.values:                 # every entry is evaluated when the dict is built: none may raise
+                self.pair(v)
+            hit = [v for k, v in zip(d.keys, d.values) if self.aval(k) == key]
+            if not hit:
+                return None                    # KeyError
+            return self.reduce(hit[-1])
+        if isinstance(node, ast.Subscript) and isinstance(node.slice, ast.Constant) and node.slice.value in (0, 1):
+            base = self.reduce(node.value)
+            if isinstance(base, ast.Tuple) and len(base.elts) == 2:
+                return self.reduce(base.elts[node.slice.value])
+        if isinstance(node, ast.Call) and isinstance(node.func, ast.Name) and node.func.id in self.funcs \
+                and node.func.id != "_set_relative_position":
+            if self.depth > 6:
+                fail(node, "helper calls nested too deeply")
+            fn = self.funcs[node.func.id]
+            env = {p: self.reduce(a) for p, a in bind_call(fn, node).items()}
+            if any(v is None for v in env.values()):
+                return None
+            kind, val = _AlignEval(self.tree, self.values, self.member, self.depth + 1).block(body_no_doc(fn), env)
+            if kind != "return":
+                return None if kind == "raise" else fail(node, "helper does not return a value")
+            return val
+        if isinstance(node, ast.Tuple):
+            elts = [self.reduce(e) for e in node.elts]
+            if any(e is None for e in elts):
+                return None
+            return ast.Tuple(elts=elts, ctx=ast.Load())
+        if isinstance(node, ast.BinOp):
+            l, r = self.reduce(node.left), self.reduce(node.right)
+            if l is None or r is None:
+                return None
+            return ast.BinOp(left=l, op=node.op, right=r)
+        if isinstance(node, ast.UnaryOp):
+            o = self.reduce(node.operand)
+            return None if o is None else ast.UnaryOp(op=node.op, operand=o)
+        if isinstance(node, ast.Call) and ast.unparse(node.func) in ("int", "math.trunc", "trunc") \
+                and len(node.args) == 1 and not node.keywords:
+            a = self.reduce(node.args[0])
+            return None if a is None else ast.Call(func=node.func, args=[a], keywords=[])
+        return node
+
+    def pair(self, node):
+        node = self.reduce(node)
+        if node is None:
+            return None
+        if not isinstance(node, ast.Tuple) or len(node.elts) != 2:
+            fail(node, "the result must be a pair `<y>, <x>`")
+        return expr(node.elts[0]), expr(node.elts[1])
+
+    # -- statements
+    def block(self, stmts, env):
+        """-> ('return', node) | ('raise', None) | ('fall', env)."""
+        env = dict(env)
+        for st in stmts:
+            if _is_doc_or_noise(st):
+                continue
+            if isinstance(st, ast.AnnAssign) and st.value is not None:
+                st = ast.Assign(targets=[st.target], value=st.value, lineno=st.lineno)
+            if isinstance(st, ast.Assign) and len(st.targets) == 1:
+                tgt, val = st.targets[0], subst(st.value, env)
+                if isinstance(tgt, ast.Name):
+                    env[tgt.id] = val
+                    continue
+                if isinstance(tgt, ast.Tuple) and isinstance(val, ast.Tuple) and len(tgt.elts) == len(val.elts) \
+                        and all(isinstance(e, ast.Name) for e in tgt.elts):
+                    env.update({e.id: v for e, v in zip(tgt.elts, val.elts)})
+                    continue
+                fail(st, "assignment shape")
+            if isinstance(st, ast.Return):
+                if st.value is None:
+                    fail(st, "bare return")
+                return "return", subst(st.value, env)
+            if isinstance(st, ast.Raise):
+                return "raise", None
+            if isinstance(st, ast.If):
+                branch = st.body if self.cond(subst(st.test, env)) else st.orelse
+                kind, val = self.block(branch, env)
+                if kind != "fall":
+                    return kind, val
+                env = val
+                continue
+            if isinstance(st, ast.Match):
+                subj = self.aval(subst(st.subject, env))
+                if subj is None:
+                    fail(st, "match subject is not the alignment member")
+                chosen = None
+                for case in st.cases:
+                    if case.guard is not None and not self.cond(subst(case.guard, env)):
+                        continue
+                    if self.pattern(case.pattern, subj):
+                        chosen = case
+                        break
+                if chosen is None:
+                    continue
+                kind, val = self.block(chosen.body, env)
+                if kind != "fall":
+                    return kind, val
+                env = val
+                continue
+            if isinstance(st, ast.Assert):
+                if self.cond(subst(st.test, env)):
+                    continue
+                return "raise", None
+            fail(st, "statement not accepted in _set_relative_position")
+        return "fall", env
+
+    def pattern(self, pat, subj) -> bool:
+        if isinstance(pat, ast.MatchAs) and pat.pattern is None and pat.name is None:
+            return True
+        if isinstance(pat, ast.MatchOr):
+            return any(self.pattern(p, subj) for p in pat.patterns)
+        if isinstance(pat, ast.MatchValue):
+            b = self.aval(pat.value)
+            if b is None or b[0] != subj[0]:
+                fail(pat, "case pattern must be an Alignment member")
+            return b == subj
+        fail(pat, "case pattern not accepted")
+
+
+def _roles(tree, fn) -> dict:
+    """parameter of _set_relative_position -> role (array_x/array_y/output_x/output_y/alignment).  The documented
+    names are taken as they are; renamed parameters are followed to the one call in fit_into_array."""
+    names = _params(fn)
+    if sorted(names) == sorted(list(VARS) + ["alignment"]):
+        return {n: n for n in names}
+    caller = find_func(tree, "fit_into_array")
+    calls = [c for c in ast.walk(caller) if isinstance(c, ast.Call) and isinstance(c.func, ast.Name)
+             and c.func.id == "_set_relative_position"]
+    users = [c for c in ast.walk(tree) if isinstance(c, ast.Name) and c.id == "_set_relative_position"]
+    if len(calls) != 1 or len(users) != 1 or len(caller.args.args) < 2:
+        fail(fn, "_set_relative_position: renamed parameters need exactly one call, in fit_into_array")
+    p_arr, p_shape = caller.args.args[0].arg, caller.args.args[1].arg
+    local = {}
+    for st in ast.walk(caller):
+        if isinstance(st, ast.Assign) and len(st.targets) == 1 and isinstance(st.targets[0], ast.Tuple) \
+                and len(st.targets[0].elts) == 2 and all(isinstance(e, ast.Name) for e in st.targets[0].elts):
+            a, b = (e.id for e in st.targets[0].elts)
+            src = ast.unparse(st.value)
+            kinds = {f"{p_arr}.shape": ("array_y", "array_x"), p_shape: ("output_y", "output_x"),
+                     "output.shape": ("output_y", "output_x")}
+            if src in kinds and _stores(caller, a) == 1 and _stores(caller, b) == 1:
+                local[a], local[b] = kinds[src]
+    direct = {f"{p_arr}.shape[0]": "array_y", f"{p_arr}.shape[1]": "array_x",
+              f"{p_shape}[0]": "output_y", f"{p_shape}[1]": "output_x"}
+    out = {}
+    for p, a in bind_call(fn, calls[0]).items():
+        if isinstance(a, ast.Name) and a.id in local:
+            out[p] = local[a.id]
+        elif ast.unparse(a) in direct:
+            out[p] = direct[ast.unparse(a)]
+        elif isinstance(a, ast.Call) and ast.unparse(a.func) == "Alignment" and len(a.args) == 1:
+            out[p] = "alignment"
+        else:
+            fail(a, "argument of _set_relative_position not understood")
+    if sorted(out.values()) != sorted(list(VARS) + ["alignment"]):
+        fail(calls[0], "_set_relative_position must receive the two array sizes, the two output sizes and the member")
+    return out
+
+
+def _align(tree, names=None) -> dict[str, tuple[str, str]]:
     fn = find_func(tree, "_set_relative_position")
-    names = [a.arg for a in fn.args.args + fn.args.kwonlyargs]
-    if sorted(names) != sorted(list(VARS) + ["alignment"]):
-        fail(fn, "_set_relative_position parameters")
-    body = body_no_doc(fn)
-    if len(body) in (1, 2) and isinstance(body[0], ast.Match):
-        return _align_match(fn, body)
-    if len(body) != 1 or not isinstance(body[0], ast.If):
-        fail(fn, "_set_relative_position body must be one if/elif chain or one match statement")
-    node, res = body[0], {}
-    while True:
-        t = node.test
-        if not (isinstance(t, ast.Compare) and len(t.ops) == 1 and isinstance(t.ops[0], (ast.Eq, ast.Is))
-                and isinstance(t.left, ast.Name) and t.left.id == "alignment"
-                and isinstance(t.comparators[0], ast.Attribute)
-                and isinstance(t.comparators[0].value, ast.Name) and t.comparators[0].value.id == "Alignment"):
-            fail(t, "branch test must be `alignment == Alignment.<member>`")
-        mem = t.comparators[0].attr
-        if mem not in MEMBERS or MEMBERS[mem] in res:
-            fail(t, "unknown or repeated member")
-        if len(node.body) != 1 or not isinstance(node.body[0], ast.Return) \
-                or not isinstance(node.body[0].value, ast.Tuple) or len(node.body[0].value.elts) != 2:
-            fail(node, "branch must be a single `return <y>, <x>`")
-        y, x = node.body[0].value.elts
-        res[MEMBERS[mem]] = (expr(y), expr(x))
-        if len(node.orelse) == 1 and isinstance(node.orelse[0], ast.If):
-            node = node.orelse[0]
-            continue
-        if len(node.orelse) == 1 and isinstance(node.orelse[0], ast.Raise):
-            break
-        fail(node, "chain must end with `else: raise ...`")
-    if sorted(res) != sorted(MEMBERS.values()):
-        fail(fn, "every member needs a branch")
-    return res
-
-
-def _align_match(fn, body) -> dict[str, tuple[str, str]]:
-    """`match alignment: case Alignment.<m>: return <y>, <x> ... [case _: raise ...]` (+ an optional final raise)."""
-    m = body[0]
-    if not (isinstance(m.subject, ast.Name) and m.subject.id == "alignment"):
-        fail(m, "match subject must be `alignment`")
-    if len(body) == 2 and not isinstance(body[1], ast.Raise):
-        fail(body[1], "only a `raise` may follow the match statement")
+    if fn.decorator_list:
+        fail(fn, "decorator on _set_relative_position")
+    roles = _roles(tree, fn)
+    values = {m: s for s, mm in (names or []) for m, g in MEMBERS.items() if g == mm}
     res = {}
-    for case in m.cases:
-        pat = case.pattern
-        if case.guard is not None:
-            fail(case.pattern, "guarded case not accepted")
-        if isinstance(pat, ast.MatchAs) and pat.pattern is None:          # case _:
-            if len(case.body) != 1 or not isinstance(case.body[0], ast.Raise):
-                fail(pat, "the default case must raise")
-            continue
-        if not (isinstance(pat, ast.MatchValue) and isinstance(pat.value, ast.Attribute)
-                and isinstance(pat.value.value, ast.Name) and pat.value.value.id == "Alignment"):
-            fail(pat, "case pattern must be `Alignment.<member>`")
-        mem = pat.value.attr
-        if mem not in MEMBERS or MEMBERS[mem] in res:
-            fail(pat, "unknown or repeated member")
-        if len(case.body) != 1 or not isinstance(case.body[0], ast.Return) \
-                or not isinstance(case.body[0].value, ast.Tuple) or len(case.body[0].value.elts) != 2:
-            fail(pat, "case must be a single `return <y>, <x>`")
-        y, x = case.body[0].value.elts
-        res[MEMBERS[mem]] = (expr(y), expr(x))
-    if sorted(res) != sorted(MEMBERS.values()):
-        fail(fn, "every member needs a case")
+    for mem, gal in MEMBERS.items():
+        ev = _AlignEval(tree, values, mem)
+        env = {p: ast.Name(id="\0member" if r == "alignment" else r, ctx=ast.Load()) for p, r in roles.items()}
+        kind, val = ev.block(body_no_doc(fn), env)
+        if kind != "return":
+            fail(fn, f"Alignment.{mem}: no pair of offsets is returned")
+        pr = ev.pair(val)
+        if pr is None:
+            fail(fn, f"Alignment.{mem}: no pair of offsets is returned")
+        res[gal] = pr
     return res
 
 
@@ -192,36 +489,118 @@ def _memo(tree) -> tuple[bool, int, list[str]]:
     return memo, maxsize, [KEYS[p] for p in params]
 
 
+def _reachable(tree, fn) -> list:
+    """fn and the module-level functions of the same file it calls by name (transitively): the code a reader sees
+    after inlining private helpers."""
+    funcs, out, todo = _module_funcs(tree), [], [fn]
+    while todo:
+        f = todo.pop()
+        if any(f is g for g in out):
+            continue
+        out.append(f)
+        for c in ast.walk(f):
+            if isinstance(c, ast.Call) and isinstance(c.func, ast.Name) and c.func.id in funcs:
+                todo.append(funcs[c.func.id])
+    return out
+
+
+LOADTXT = ("np.loadtxt", "numpy.loadtxt", "loadtxt")
+
+
+def _resolve_iter(tree, fns, fn, node, depth=0):
+    """The literal a loop iterates over: written in place, a local / module-level name bound once, or a parameter of
+    a private helper (followed to the argument of its one call, or its default)."""
+    if depth > 6:
+        fail(node, "separator list: too many indirections")
+    if isinstance(node, (ast.Tuple, ast.List)):
+        return list(node.elts)
+    if isinstance(node, ast.Constant) and isinstance(node.value, str):
+        return [ast.Constant(value=ch) for ch in node.value]
+    if isinstance(node, ast.Call) and ast.unparse(node.func) in ("tuple", "list", "iter") and len(node.args) == 1 \
+            and not node.keywords:
+        return _resolve_iter(tree, fns, fn, node.args[0], depth + 1)
+    if isinstance(node, ast.Name):
+        if node.id in _params(fn):
+            if _stores(fn, node.id):
+                fail(node, "separator parameter is reassigned")
+            calls = [(g, c) for g in fns for c in ast.walk(g)
+                     if isinstance(c, ast.Call) and isinstance(c.func, ast.Name) and c.func.id == fn.name]
+            refs = [n for n in ast.walk(tree) if isinstance(n, ast.Name) and n.id == fn.name]
+            if len(calls) != 1 or len(refs) != 1:
+                fail(node, "the helper holding the separator loop must be called exactly once")
+            g, c = calls[0]
+            return _resolve_iter(tree, fns, g, bind_call(fn, c)[node.id], depth + 1)
+        local = [st for st in ast.walk(fn)
+                 if (isinstance(st, ast.Assign) and len(st.targets) == 1 and isinstance(st.targets[0], ast.Name)
+                     and st.targets[0].id == node.id)
+                 or (isinstance(st, ast.AnnAssign) and isinstance(st.target, ast.Name) and st.target.id == node.id
+                     and st.value is not None)]
+        if local:
+            if len(local) != 1 or _stores(fn, node.id) != 1:
+                fail(node, "separator list is bound more than once")
+            return _resolve_iter(tree, fns, fn, local[0].value, depth + 1)
+        v = module_const(tree, node.id)
+        if v is None:
+            fail(node, "separator list must be a literal or a name bound exactly once")
+        return _resolve_iter(tree, fns, fn, v, depth + 1)
+    fail(node, "separator list shape")
+
+
 def _delims(repo: Path) -> list[str]:
+    """The separators load_image tries on a text file, in order: the one loop (in load_image or in a private helper
+    it calls) whose body calls np.loadtxt(delimiter=<loop variable>).  How the loop stops and how failure is
+    reported is behaviour — judged by the correspondence (texts against `detect src_delims`), not read here."""
     tree = parse(repo, "pyxel/inputs/loader.py")
-    fn = find_func(tree, "load_image")
-    loops = [n for n in ast.walk(fn) if isinstance(n, ast.For)]
-    if len(loops) != 1:
-        fail(fn, "load_image must contain exactly one `for sep in (...)` loop")
-    lp = loops[0]
-    it = lp.iter
-    if isinstance(it, ast.Name):             # a module-level constant tuple, bound once
-        binds = [st for st in tree.body
-                 if (isinstance(st, ast.Assign) and any(isinstance(t, ast.Name) and t.id == it.id for t in st.targets))
-                 or (isinstance(st, ast.AnnAssign) and isinstance(st.target, ast.Name) and st.target.id == it.id)]
-        stores = [n for n in ast.walk(tree) if isinstance(n, ast.Name) and n.id == it.id and isinstance(n.ctx, ast.Store)]
-        if len(binds) != 1 or len(stores) != 1 or binds[0].value is None:
-            fail(lp, "separator constant must be bound exactly once at module level")
-        it = binds[0].value
-    if not (isinstance(lp.target, ast.Name) and isinstance(it, (ast.Tuple, ast.List))):
-        fail(lp, "separator loop shape")
+    fns = _reachable(tree, find_func(tree, "load_image"))
+    funcs = _module_funcs(tree)
+
+    def reads_with(scope, fn, names, depth=0):
+        """np.loadtxt calls under `scope` (a loop body, or a whole helper) whose delimiter is one of `names` — directly,
+        or inside a private helper that receives such a name as an argument."""
+        if depth > 4:
+            fail(scope, "separator handed through too many helpers")
+        names = set(names)
+        for st in ast.walk(scope):                        # `delimiter = sep`
+            if isinstance(st, ast.Assign) and len(st.targets) == 1 and isinstance(st.targets[0], ast.Name) \
+                    and isinstance(st.value, ast.Name) and st.value.id in names and _stores(fn, st.targets[0].id) == 1:
+                names.add(st.targets[0].id)
+        hits = []
+        for c in ast.walk(scope):
+            if not isinstance(c, ast.Call):
+                continue
+            if ast.unparse(c.func) in LOADTXT:
+                if any(k.arg == "delimiter" and isinstance(k.value, ast.Name) and k.value.id in names for k in c.keywords):
+                    hits.append(c)
+            elif isinstance(c.func, ast.Name) and c.func.id in funcs and funcs[c.func.id] is not fn:
+                g = funcs[c.func.id]
+                passed = [p for p, a in bind_call(g, c).items() if isinstance(a, ast.Name) and a.id in names]
+                passed = [p for p in passed if _stores(g, p) == 0]
+                if passed:
+                    hits += reads_with(g, g, passed, depth + 1)
+        return hits
+
+    found, n_calls = [], 0
+    for fn in fns:
+        inside = set()
+        for lp in [n for n in ast.walk(fn) if isinstance(n, ast.For)]:
+            if not isinstance(lp.target, ast.Name):
+                continue
+            for c in reads_with(lp, fn, {lp.target.id}):
+                if id(c) not in inside:
+                    found.append((fn, lp, c))
+                inside.add(id(c))
+        n_calls += sum(1 for c in ast.walk(fn) if isinstance(c, ast.Call) and ast.unparse(c.func) in LOADTXT)
+    if len(found) != 1 or n_calls != 1:
+        fail(fns[0], f"load_image: expected one np.loadtxt call, inside one loop over the separators "
+                     f"(found {n_calls} calls, {len(found)} in such a loop)")
+    fn, lp, _ = found[0]
+    if _stores(fn, lp.target.id) != 1:
+        fail(lp, "the loop variable is reassigned")
     out = []
-    for e in it.elts:
-        if not (isinstance(e, ast.Constant) and e.value in DELIMS):
+    for e in _resolve_iter(tree, fns, fn, lp.iter):
+        if not (isinstance(e, ast.Constant) and isinstance(e.value, str) and e.value in DELIMS):
             fail(e, "unknown separator")
         out.append(DELIMS[e.value])
-    # the loop must try np.loadtxt(..., delimiter=<loop variable>) and stop at the first success
-    calls = [c for c in ast.walk(lp) if isinstance(c, ast.Call) and ast.unparse(c.func) == "np.loadtxt"]
-    if len(calls) != 1 or not any(k.arg == "delimiter" and isinstance(k.value, ast.Name) and k.value.id == lp.target.id
-                                  for k in calls[0].keywords):
-        fail(lp, "loop must call np.loadtxt(delimiter=<loop variable>)")
-    if not any(isinstance(n, ast.Break) for n in ast.walk(lp)) or not lp.orelse:
-        fail(lp, "loop must break at the first success and raise in its else clause")
     return out
 
 
@@ -234,7 +613,9 @@ MUTATORS = {"pop", "popitem", "update", "setdefault", "append", "add", "clear", 
             "discard", "move_to_end", "appendleft", "__setitem__", "__delitem__"}
 # decorators that do not keep results (anything else on a function of these files fails closed)
 PLAIN_DECORATORS = {"staticmethod", "classmethod", "property", "overload", "typing.overload", "deprecated",
-                    "typing.no_type_check", "no_type_check"}
+                    "typing.no_type_check", "no_type_check", "final", "typing.final", "wraps", "functools.wraps",
+                    "contextmanager", "contextlib.contextmanager", "typing_extensions.deprecated",
+                    "warnings.deprecated", "typing_extensions.override", "override"}
 
 
 def _is_container(v: ast.AST) -> bool:
@@ -316,172 +697,292 @@ def _attr_chain(node) -> str | None:
     return None
 
 
-def _model_call(repo: Path, rel: str, fname: str, file_param: str, sink: str) -> dict:
-    """Straight-line reading of a loading model: bindings, the one call of load_cropped_and_aligned_image, the
-    scaling of its result, the sink.  `if <flag parameter whose default is False/None>:` blocks are skipped (the
-    model is read for its default flags); anything else fails closed."""
-    tree = parse(repo, rel)
-    fn = find_func(tree, fname)
-    params = [a.arg for a in fn.args.args + fn.args.kwonlyargs]
-    defaults = {}
-    pos_defaults = fn.args.defaults
-    for a, d in zip(fn.args.args[len(fn.args.args) - len(pos_defaults):], pos_defaults):
-        defaults[a.arg] = d
-    for a, d in zip(fn.args.kwonlyargs, fn.args.kw_defaults):
-        if d is not None:
-            defaults[a.arg] = d
-    for need in ("detector", file_param, "position", "align", "time_scale"):
-        if need not in params:
-            fail(fn, f"{fname}: parameter {need!r} missing")
-    alias = {}            # name -> attribute chain it stands for (geo = detector.geometry)
-    unpack = {}           # name -> index into `position`
-    shape_of = {}         # name -> (GRow|GCol, GRow|GCol)
-    mono = {}             # name -> (is_image, (e_step, e_scale, e_mult))
-    call = None
-    sunk = None
+MODELLED = ("detector", "position", "align", "time_scale", "multiplier")
+OPAQUE = ("opaque",)
+IDENTITY_CALLS = {"str", "Path", "pathlib.Path", "float", "int", "tuple"}
 
-    def chain(node):
-        c = _attr_chain(node)
-        if c is None:
-            return None
-        head, _, rest = c.partition(".")
-        if head in alias:
-            c = alias[head] + ("." + rest if rest else "")
-        return c
 
-    def shape_expr(node):
-        if isinstance(node, ast.Name) and node.id in shape_of:
-            return shape_of[node.id]
-        if isinstance(node, ast.Tuple) and len(node.elts) == 2:
-            out = []
-            for e in node.elts:
-                c = chain(e)
-                if c == "detector.geometry.row":
-                    out.append("GRow")
-                elif c == "detector.geometry.col":
-                    out.append("GCol")
-                else:
-                    fail(e, "shape component must be detector.geometry.row / .col")
-            return tuple(out)
-        fail(node, "shape argument shape")
+class _ModelEval:
+    """Abstract reading of a loading model with its optional features at their defaults: what reaches
+    load_cropped_and_aligned_image and what is added to the bucket.  Values: ('chain', 'detector.geometry.row'),
+    ('tuple', [..]), ('pos', k), ('mono', is_image, (e_step, e_scale, e_mult)), ('const', v), OPAQUE (anything else —
+    harmless unless it reaches the call or the sink).  Private helpers of the same module are inlined; local aliases,
+    tuple unpacking, augmented assignments, conditional expressions and guard clauses on the optional parameters are
+    followed; statements that cannot touch the detector (logging, late imports, annotations) are skipped."""
 
-    def pos_expr(node):
-        if isinstance(node, ast.Name) and node.id in unpack:
-            return unpack[node.id]
-        if (isinstance(node, ast.Subscript) and isinstance(node.value, ast.Name) and node.value.id == "position"
-                and isinstance(node.slice, ast.Constant) and node.slice.value in (0, 1)):
-            return node.slice.value
-        fail(node, "position argument must be a component of `position`")
+    def __init__(self, tree, fname, file_param, sink):
+        self.tree, self.file_param, self.sink = tree, file_param, sink
+        self.funcs = _module_funcs(tree)
+        self.top = find_func(tree, fname)
+        self.params = _params(self.top)
+        self.defaults = _defaults(self.top)
+        for need in ("detector", file_param, "position", "align", "time_scale"):
+            if need not in self.params:
+                fail(self.top, f"{fname}: parameter {need!r} missing")
+        self.call = None
+        self.sunk = None
+        self.depth = 0
 
-    def monomial(node):
-        """(is_image, exponents) of a product / quotient expression."""
+    # -- values
+    def mono(self, v):
+        if v[0] == "mono":
+            return v[1], v[2]
+        if v == ("chain", "detector.time_step"):
+            return 0, (1, 0, 0)
+        if v == ("chain", "time_scale"):
+            return 0, (0, 1, 0)
+        if v == ("chain", "multiplier"):
+            return 0, (0, 0, 1)
+        if v[0] == "const" and v[1] in (1, 1.0) and not isinstance(v[1], bool):
+            return 0, (0, 0, 0)
+        return None
+
+    def ev(self, node, env):
+        if isinstance(node, ast.Constant):
+            return ("const", node.value)
         if isinstance(node, ast.Name):
-            if node.id in mono:
-                return mono[node.id]
-            if node.id == "time_scale":
-                return (0, (0, 1, 0))
-            if node.id == "multiplier" and "multiplier" in params:
-                return (0, (0, 0, 1))
-            fail(node, "unknown factor")
-        if chain(node) == "detector.time_step":
-            return (0, (1, 0, 0))
-        if isinstance(node, ast.Constant) and node.value in (1, 1.0) and not isinstance(node.value, bool):
-            return (0, (0, 0, 0))
+            if node.id in env:
+                return env[node.id]
+            return OPAQUE
+        if isinstance(node, ast.Attribute):
+            b = self.ev(node.value, env)
+            if b[0] == "chain":
+                c = b[1] + "." + node.attr
+                if c == "detector.geometry.shape":
+                    return ("tuple", [("chain", "detector.geometry.row"), ("chain", "detector.geometry.col")])
+                return ("chain", c)
+            return OPAQUE
+        if isinstance(node, ast.Tuple) or isinstance(node, ast.List):
+            return ("tuple", [self.ev(e, env) for e in node.elts])
+        if isinstance(node, ast.Subscript) and isinstance(node.slice, ast.Constant) and isinstance(node.slice.value, int):
+            b, k = self.ev(node.value, env), node.slice.value
+            if b[0] == "tuple" and -len(b[1]) <= k < len(b[1]):
+                return b[1][k]
+            if b == ("chain", "position") and k in (0, 1, -1, -2):
+                return ("pos", k % 2)
+            return OPAQUE
         if isinstance(node, ast.BinOp) and isinstance(node.op, (ast.Mult, ast.Div)):
-            (ia, ea), (ib, eb) = monomial(node.left), monomial(node.right)
+            l, r = self.mono(self.ev(node.left, env)), self.mono(self.ev(node.right, env))
+            if l is None or r is None:
+                return OPAQUE
             sg = 1 if isinstance(node.op, ast.Mult) else -1
-            return (ia + sg * ib, tuple(x + sg * y for x, y in zip(ea, eb)))
-        fail(node, "scaling expression shape")
+            return ("mono", l[0] + sg * r[0], tuple(x + sg * y for x, y in zip(l[1], r[1])))
+        if isinstance(node, ast.IfExp):
+            t = self.test(node.test, env)
+            if t is None:
+                return OPAQUE
+            return self.ev(node.body if t else node.orelse, env)
+        if isinstance(node, ast.NamedExpr):
+            return OPAQUE
+        if isinstance(node, ast.Call):
+            f = ast.unparse(node.func)
+            if f in ("load_cropped_and_aligned_image", "util.load_cropped_and_aligned_image",
+                     "pyxel.util.load_cropped_and_aligned_image"):
+                if self.call is not None:
+                    fail(node, "second call of load_cropped_and_aligned_image")
+                if any(isinstance(a, ast.Starred) for a in node.args) or any(k.arg is None for k in node.keywords) \
+                        or len(node.args) > len(LCAI_PARAMS):
+                    fail(node, "call shape of load_cropped_and_aligned_image")
+                args = {n: self.ev(a, env) for n, a in zip(LCAI_PARAMS, node.args)}
+                for kw in node.keywords:
+                    if kw.arg not in LCAI_PARAMS or kw.arg in args:
+                        fail(node, "keyword of load_cropped_and_aligned_image")
+                    args[kw.arg] = self.ev(kw.value, env)
+                self.call = (node, args)
+                return ("mono", 1, (0, 0, 0))
+            if isinstance(node.func, ast.Name) and node.func.id in self.funcs and node.func.id not in env:
+                fn = self.funcs[node.func.id]
+                if self.depth > 6 or fn is self.top:
+                    fail(node, "helper calls nested too deeply")
+                if fn.decorator_list:
+                    fail(node, "decorated helper")
+                child = {p: self.ev(a, env) for p, a in bind_call(fn, node).items()}
+                self.depth += 1
+                kind, val = self.block(body_no_doc(fn), child)
+                self.depth -= 1
+                if kind == "return":
+                    return val
+                if kind == "fall":
+                    return ("const", None)
+                fail(node, "helper raises on the default path")
+            if f in IDENTITY_CALLS and len(node.args) == 1 and not node.keywords:
+                return self.ev(node.args[0], env)
+            # any other call: its arguments are still evaluated (a load hidden in an argument must be seen)
+            for a in list(node.args) + [k.value for k in node.keywords]:
+                self.ev(a.value if isinstance(a, ast.Starred) else a, env)
+            head = self.ev(node.func, env) if isinstance(node.func, (ast.Attribute, ast.Name)) else OPAQUE
+            if head[0] == "chain" and head[1].split(".")[0] == "detector":
+                if self.sink == "charge" and head[1] == "detector.charge.add_charge_array" and len(node.args) == 1 \
+                        and not node.keywords:
+                    self.add_sink(node, self.ev(node.args[0], env))
+                    return ("const", None)
+                fail(node, "call on the detector not accepted")
+            return OPAQUE
+        for sub in ast.iter_child_nodes(node):            # other expression kinds: look inside for calls, result unknown
+            if isinstance(sub, ast.expr):
+                self.ev(sub, env)
+        return OPAQUE
 
-    def is_lcai(node):
-        return isinstance(node, ast.Call) and ast.unparse(node.func) == "load_cropped_and_aligned_image"
+    def test(self, node, env):
+        """True / False when decided by the optional (not modelled) parameters at their defaults and constants; None
+        when it depends on anything else."""
+        if isinstance(node, ast.UnaryOp) and isinstance(node.op, ast.Not):
+            t = self.test(node.operand, env)
+            return None if t is None else not t
+        if isinstance(node, ast.BoolOp):
+            vals = [self.test(v, env) for v in node.values]
+            if isinstance(node.op, ast.And):
+                return False if False in vals else (None if None in vals else True)
+            return True if True in vals else (None if None in vals else False)
+        if isinstance(node, ast.Compare) and len(node.ops) == 1:
+            a, b = self.ev(node.left, env), self.ev(node.comparators[0], env)
+            if a[0] == "const" and b[0] == "const":
+                op = node.ops[0]
+                if isinstance(op, (ast.Is, ast.IsNot)) and (a[1] is None or b[1] is None or isinstance(a[1], bool)):
+                    r = a[1] is b[1]
+                    return r if isinstance(op, ast.Is) else not r
+                if isinstance(op, (ast.Eq, ast.NotEq)):
+                    r = a[1] == b[1]
+                    return r if isinstance(op, ast.Eq) else not r
+            return None
+        v = self.ev(node, env)
+        if v[0] == "const":
+            return bool(v[1])
+        return None
 
-    for st in body_no_doc(fn):
-        if isinstance(st, ast.If):
-            t = st.test
-            flag = t.id if isinstance(t, ast.Name) else None
-            d = defaults.get(flag)
-            if flag in params and isinstance(d, ast.Constant) and d.value in (False, None) and not st.orelse:
-                continue                                   # an optional feature, off by default
-            fail(st, "conditional not accepted")
-        if isinstance(st, ast.AnnAssign) and st.value is not None and isinstance(st.target, ast.Name):
-            st = ast.Assign(targets=[st.target], value=st.value, lineno=st.lineno)
-        if isinstance(st, ast.Assign) and len(st.targets) == 1:
-            tgt, val = st.targets[0], st.value
-            if isinstance(tgt, ast.Tuple) and isinstance(val, ast.Name) and val.id == "position" \
-                    and len(tgt.elts) == 2 and all(isinstance(e, ast.Name) for e in tgt.elts):
-                for k, e in enumerate(tgt.elts):
-                    unpack[e.id] = k
+    def add_sink(self, node, v):
+        if self.sunk is not None:
+            fail(node, "second sink")
+        m = self.mono(v)
+        if m is None:
+            fail(node, "what is added to the bucket is not the loaded image times a factor")
+        self.sunk = m
+
+    # -- statements
+    def block(self, stmts, env):
+        for st in stmts:
+            if _is_doc_or_noise(st):
                 continue
-            if isinstance(tgt, ast.Name):
-                new_alias = new_shape = new_mono = None
-                if is_lcai(val):
-                    if call is not None:
-                        fail(val, "second call of load_cropped_and_aligned_image")
-                    call = val
-                    new_mono = (1, (0, 0, 0))
-                else:
-                    c = chain(val)
-                    if c is not None and c.startswith("detector") and c != "detector.time_step":
-                        new_alias = c
-                    elif isinstance(val, ast.Tuple):
-                        new_shape = shape_expr(val)
-                    else:
-                        new_mono = monomial(val)
-                for dct in (alias, unpack, shape_of, mono):
-                    dct.pop(tgt.id, None)
-                if new_alias is not None:
-                    alias[tgt.id] = new_alias
-                if new_shape is not None:
-                    shape_of[tgt.id] = new_shape
-                if new_mono is not None:
-                    mono[tgt.id] = new_mono
+            if isinstance(st, ast.AnnAssign):
+                if st.value is None:
+                    continue
+                st = ast.Assign(targets=[st.target], value=st.value, lineno=st.lineno)
+            if isinstance(st, ast.Assign):
+                val = self.ev(st.value, env)
+                for tgt in st.targets:
+                    self.assign(st, tgt, val, env, st.value)
                 continue
-            fail(st, "assignment shape")
-        if sink == "photon" and isinstance(st, ast.AugAssign) and isinstance(st.op, ast.Add) \
-                and chain(st.target) == "detector.photon":
-            if sunk is not None:
-                fail(st, "second sink")
-            sunk = monomial(st.value)
-            continue
-        if sink == "charge" and isinstance(st, ast.Expr) and isinstance(st.value, ast.Call) \
-                and chain(st.value.func) == "detector.charge.add_charge_array" and len(st.value.args) == 1:
-            if sunk is not None:
-                fail(st, "second sink")
-            sunk = monomial(st.value.args[0])
-            continue
-        fail(st, f"{fname}: statement not accepted")
-    if call is None or sunk is None:
-        fail(fn, f"{fname}: call of load_cropped_and_aligned_image or sink not found")
-    args = {}
-    if len(call.args) > len(LCAI_PARAMS):
-        fail(call, "too many positional arguments")
-    for name, a in zip(LCAI_PARAMS, call.args):
-        args[name] = a
-    for kw in call.keywords:
-        if kw.arg not in LCAI_PARAMS or kw.arg in args:
-            fail(call, "keyword of load_cropped_and_aligned_image")
-        args[kw.arg] = kw.value
-    for need in ("shape", "filename"):
+            if isinstance(st, ast.AugAssign):
+                if isinstance(st.target, ast.Name):
+                    cur = env.get(st.target.id, OPAQUE)
+                    if cur[0] == "mono" and cur[1] != 0:
+                        fail(st, "in-place operation on the loaded array (not the same as rebinding: the array is "
+                                 "read-only and may be shared)")
+                    env[st.target.id] = self.ev(ast.BinOp(left=ast.Name(id=st.target.id, ctx=ast.Load()), op=st.op,
+                                                          right=st.value), env)
+                    continue
+                tv = self.ev(st.target, env) if isinstance(st.target, ast.Attribute) else OPAQUE
+                if self.sink == "photon" and tv == ("chain", "detector.photon") and isinstance(st.op, ast.Add):
+                    self.add_sink(st, self.ev(st.value, env))
+                    continue
+                fail(st, "augmented assignment not accepted")
+            if isinstance(st, ast.Expr):
+                self.ev(st.value, env)
+                continue
+            if isinstance(st, ast.Return):
+                return "return", (("const", None) if st.value is None else self.ev(st.value, env))
+            if isinstance(st, ast.Raise):
+                return "raise", None
+            if isinstance(st, ast.If):
+                t = self.test(st.test, env)
+                if t is None:
+                    if all(isinstance(x, ast.Raise) or _is_doc_or_noise(x) for x in st.body) and not st.orelse:
+                        continue                      # a validation guard: refuses some inputs, changes no result
+                    fail(st, "conditional not decided by the optional parameters at their defaults")
+                kind, val = self.block(st.body if t else st.orelse, env)
+                if kind != "fall":
+                    return kind, val
+                continue
+            if isinstance(st, ast.Assert):
+                continue
+            fail(st, "statement not accepted in a loading model")
+        return "fall", None
+
+    def assign(self, st, tgt, val, env, src):
+        if isinstance(tgt, ast.Name):
+            env[tgt.id] = val
+            return
+        if isinstance(tgt, (ast.Tuple, ast.List)) and all(isinstance(e, ast.Name) for e in tgt.elts):
+            if val[0] == "tuple" and len(val[1]) == len(tgt.elts):
+                for e, v in zip(tgt.elts, val[1]):
+                    env[e.id] = v
+            elif val == ("chain", "position") and len(tgt.elts) == 2:
+                env[tgt.elts[0].id], env[tgt.elts[1].id] = ("pos", 0), ("pos", 1)
+            else:
+                for e in tgt.elts:
+                    env[e.id] = OPAQUE
+            return
+        if isinstance(tgt, ast.Attribute):
+            tv = self.ev(tgt, env)
+            if self.sink == "photon" and tv == ("chain", "detector.photon") and isinstance(src, ast.BinOp) \
+                    and isinstance(src.op, ast.Add):
+                l, r = self.ev_pure(src.left, env), self.ev_pure(src.right, env)
+                other = r if l == tv else (l if r == tv else None)
+                if other is not None:
+                    self.add_sink(st, other)
+                    return
+            if tv[0] == "chain" and tv[1].split(".")[0] == "detector":
+                fail(st, "store on the detector not accepted")
+            return
+        fail(st, "assignment shape")
+
+    def ev_pure(self, node, env):
+        saved = self.call
+        v = self.ev(node, env)
+        if self.call is not saved:
+            self.call = saved
+        return v
+
+
+def _model_call(repo: Path, rel: str, fname: str, file_param: str, sink: str) -> dict:
+    tree = parse(repo, rel)
+    me = _ModelEval(tree, fname, file_param, sink)
+    env = {}
+    for p in me.params:
+        d = me.defaults.get(p)
+        if p in MODELLED or p == file_param:
+            env[p] = ("chain", p)
+        elif isinstance(d, ast.Constant):
+            env[p] = ("const", d.value)                # an optional feature, read at its default
+        else:
+            env[p] = OPAQUE
+    kind, _ = me.block(body_no_doc(me.top), env)
+    if kind == "raise":
+        fail(me.top, f"{fname}: raises on the default path")
+    if me.call is None or me.sunk is None:
+        fail(me.top, f"{fname}: call of load_cropped_and_aligned_image or sink not found")
+    call, args = me.call
+    for need in ("shape", "filename", "position_x", "position_y"):
         if need not in args:
             fail(call, f"argument {need} missing")
-    out = dict(shape=shape_expr(args["shape"]))
-    out["file"] = isinstance(args["filename"], ast.Name) and args["filename"].id == file_param
-    out["py"] = pos_expr(args["position_y"]) if "position_y" in args else None
-    out["px"] = pos_expr(args["position_x"]) if "position_x" in args else None
-    if out["py"] is None or out["px"] is None:
-        fail(call, "position_x / position_y must be passed")
-    out["align"] = "align" in args and isinstance(args["align"], ast.Name) and args["align"].id == "align"
-    allow = args.get("allow_smaller_array")
-    if allow is None:
-        out["allow"] = True
-    elif isinstance(allow, ast.Constant) and isinstance(allow.value, bool):
-        out["allow"] = allow.value
-    else:
-        fail(allow, "allow_smaller_array must be a literal")
-    if sunk[0] != 1:
-        fail(fn, "the array added to the bucket must be the loaded image times a factor")
-    out["factor"] = sunk[1]
+    rc = {("chain", "detector.geometry.row"): "GRow", ("chain", "detector.geometry.col"): "GCol"}
+    sh = args["shape"]
+    if sh[0] != "tuple" or len(sh[1]) != 2 or any(x not in rc for x in sh[1]):
+        fail(call, "shape argument must be made of detector.geometry.row / .col")
+    out = dict(shape=tuple(rc[x] for x in sh[1]))
+    out["file"] = args["filename"] == ("chain", file_param)
+    for k, name in (("py", "position_y"), ("px", "position_x")):
+        if args[name][0] != "pos":
+            fail(call, f"{name} must be a component of `position`")
+        out[k] = args[name][1]
+    out["align"] = args.get("align") == ("chain", "align")
+    allow = args.get("allow_smaller_array", ("const", True))
+    if allow[0] != "const" or not isinstance(allow[1], bool):
+        fail(call, "allow_smaller_array must be a literal")
+    out["allow"] = allow[1]
+    if me.sunk[0] != 1:
+        fail(me.top, "the array added to the bucket must be the loaded image times a factor")
+    out["factor"] = me.sunk[1]
     out["adds"] = True
     return out
 
@@ -519,7 +1020,7 @@ def translate(repo: Path) -> str:
     for s, _ in names:
         if not all(32 <= ord(c) < 127 for c in s):
             fail(None, "non-ASCII alignment keyword")
-    align = _align(tree)
+    align = _align(tree, names)
     memo, maxsize, key = _memo(tree)
     delims = _delims(repo)
     photon = _model_call(repo, "pyxel/models/photon_collection/load_image.py", "load_image", "image_file", "photon")
